@@ -344,7 +344,7 @@ TLES = {
 def attached_case(draw):
     hyp = draw(st.integers(0, 9)) < 2
     ref = draw(st.sampled_from(["kepler", "kepler", "kepler", "tle", "tle", "statevector", "ephem", "ephem", "ephem-station",
-                                "keplernum-burn"]))
+                                "ephem-depot", "keplernum-burn"]))
     ops = []
     for _ in range(draw(st.integers(3, 6))):
         ops.append(dict(op=draw(st.sampled_from(["own", "own", "state", "state", "round", "via", "repeat"])),
@@ -401,7 +401,14 @@ def check_attached(case):
             st_ = case["station"]
             R = f"{name}T"
             create_station(R, (st_["lat"], st_["lon"], st_["alt"]))
-        if kind in ("ephem", "ephem-station", "keplernum-burn"):
+        if kind == "ephem-depot":
+            # a table of states RELATIVE to another spacecraft: held in a frame with the axes of EME2000 (the very same
+            # orientation object) whose centre is that spacecraft (orbit2frame(..., orientation=None))
+            B = "EME2000"
+            R = f"{name}D"
+            StateVector(cart(dict(case["other"], i=min(max(case["other"]["i"], 0.05), math.pi - 0.05)), mu), mkdate(case["t"]),
+                        "cartesian", "EME2000").as_orbit("Kepler").as_frame(R)
+        if kind in ("ephem", "ephem-station", "ephem-depot", "keplernum-burn"):
             el = dict(el, i=min(max(el["i"], 0.05), math.pi - 0.05))
             if kind == "keplernum-burn":
                 # a bound orbit above the ground for the half hour it is integrated over
@@ -414,7 +421,7 @@ def check_attached(case):
         c0 = cart(el, mu)                 # coordinates in the axes of R
         d0 = mkdate(case["t"])
         ref_form = case["ref_form"]
-        if kind in ("ephem", "ephem-station"):
+        if kind in ("ephem", "ephem-station", "ephem-depot"):
             from beyond.orbits import Ephem
 
             ref_form = "cartesian"
@@ -453,7 +460,7 @@ def check_attached(case):
     # a bare state has no motion and belongs to its own date (which day's TEME / MOD axes its coordinates refer to
     # at another date is not defined): it is used at that date only
     dts = case["dts"] if kind != "statevector" else [0.0, 0.0]
-    if kind in ("ephem", "ephem-station"):
+    if kind in ("ephem", "ephem-station", "ephem-depot"):
         dts = [60.0 * q for q in case["nodes"]]
     if kind == "keplernum-burn":
         dts = [600.0 + abs(x) / 3 for x in dts]
